@@ -190,6 +190,9 @@ def decl_states(d):
     if d.get("lims"):
         # mixed declaration: plain names get the default (0, None); tuples carry explicit limits
         return [n if l is None else (n, tuple(l)) for n, l in zip(s, d["lims"])]
+    if d["decl"] == "mixed":
+        # a list that mixes plain names and (name, (lower, upper)) entries carrying the default limits: the order is the list's
+        return [n if i % 2 == 0 else (n, (0, None)) for i, n in enumerate(s)]
     if d["decl"] == "comma": return ", ".join(s)
     if d["decl"] == "space": return " ".join(s)
     return list(s)
